@@ -17,6 +17,7 @@ import ZapVerif.Model.TransJsonEncX
 import ZapVerif.Model.TransConsoleX
 import ZapVerif.Model.TransSlogX
 import ZapVerif.Model.TransOpenX
+import ZapVerif.Model.TransLevelX
 import ZapVerif.Model.Entry
 import ZapVerif.Gen.TransProbe
 /-! `zvdrv CTR`: the interpreter side of the translator's differential test.  An op names a generated table and a
@@ -257,7 +258,22 @@ def openPar : ZapVerif.TransOpen.Par :=
     newEncoder := fun _ _ => ([], []), keys := fun _ => [], mapGet := fun _ _ => .list [], sort := id,
     toLower := ZapVerif.OpenBuild.lowerBytes }
 
+/-- the parameters of the level context (harness/cmd/zvh/trans_level.go): ASCII texts, so `bytes.ToLower` is byte-wise
+    lowering; `fmt.Sprintf(f, l)` puts the decimal text of `l` where `f` has `%d`; an enabler is
+    `[kind, level, enabled levels]`, kind 1 knows its level -/
+def levelPar : ZapVerif.TransLevel.Par :=
+  { lower := ZapVerif.OpenBuild.lowerBytes,
+    sprintf := fun f l => f.takeWhile (· != 37) ++ ZapVerif.Entry.fmtInt l ++ (f.dropWhile (· != 37)).drop 2,
+    asLeveled := fun e => match e with | .list (.int 1 :: _) => some e | _ => none,
+    leveledLevel := fun e => match e with | .list [_, .int l, _] => l | _ => 0,
+    enabled := fun e l => match e with
+      | .list [_, _, .list ls] => ls.any (fun v => match v with | .int x => x == l | _ => false)
+      | _ => false,
+    formValue := fun _ _ => [], headerGet := fun _ _ => [], jsonDecode := fun _ => ([], []), errText := fun _ => [],
+    encodeErr := fun _ _ => [] }
+
 def tables : List (String × (Env → Ctx)) := [
+  ("TransLevel", fun _ => ZapVerif.TransLevel.X levelPar),
   ("TransProbe", fun _ => { ext := probeExt, funs := ZapVerif.Gen.TransProbe.funs }),
   ("TransJsonSep", fun _ => ZapVerif.TransJsonSep.X),
   ("TransSampler", fun e => ZapVerif.TransSampler.X (enabledOf e)),
